@@ -1,4 +1,5 @@
 """C13 -- CFG <-> PDA and PDA acceptance-mode conversions preserve the language."""
+from .cfg_common import word_map
 from ..engine import Prop, Layer
 from ..gen import pda as GP
 from ..gen import cfg as GC
@@ -37,21 +38,21 @@ class C13(Prop):
 
     def layers(self, tier, seed):
         pl = ["natural@plain", "1@plain", "2@int"]
-        adv = ["natural@reserved", "1@reserved2"]
+        adv = ["natural@reserved", "1@reserved2", "natural@mixedval"]
         if tier == "quick":
             return [self.pda_layer("PDA(2,2,2,<=2)", lambda: GP.pda_cases(2, 2, 2, 0, 2), pl),
                     self.pda_layer("PDA(1,2,2,3)", lambda: GP.pda_cases(1, 2, 2, 3, 3), pl[:2]),
                     self.pda_layer("PDA(2,2,2,<=2)/names:reserved (every 3rd)",
                                    lambda: (c for k, c in enumerate(GP.pda_cases(2, 2, 2, 0, 2)) if k % 3 == 0), adv),
                     self.cfg_layer("CFG(2,2,2,<=3)", lambda: GC.cfg_cases(2, 2, 2, 0, 3),
-                                   ["natural@plain", "1@plain", "natural@pda", "1@pda", "2@pda", "3@pda", "natural@mixedval"])]
+                                   ["natural@plain", "1@plain", "natural@pda", "1@pda", "2@pda", "3@pda", "natural@mixedval", "natural@mixedter"])]
         return [self.pda_layer("PDA(2,2,2,<=2)", lambda: GP.pda_cases(2, 2, 2, 0, 2), pl + ["3@plain", "s%d@plain" % seed], rep=None),
                 self.pda_layer("PDA(1,2,2,<=4)", lambda: GP.pda_cases(1, 2, 2, 3, 4), pl[:2]),
                 self.pda_layer("PDA(2,2,2,3) every 5th", lambda: (c for k, c in enumerate(GP.pda_cases(2, 2, 2, 3, 3)) if k % 5 == 0), pl[:2]),
                 self.pda_layer("PDA(2,2,3,<=2)", lambda: GP.pda_cases(2, 2, 3, 0, 2), pl[:2]),
                 self.pda_layer("PDA(3,1,2,<=3)", lambda: GP.pda_cases(3, 1, 2, 0, 3), pl[:2], rep=None),
                 self.pda_layer("PDA(2,2,2,<=2)/names:reserved", lambda: GP.pda_cases(2, 2, 2, 0, 2), adv),
-                self.cfg_layer("CFG(2,2,2,<=3)", lambda: GC.cfg_cases(2, 2, 2, 0, 3), ["natural@plain", "1@plain", "2@pda", "3@pda", "natural@mixedval", "1@mixedval"]),
+                self.cfg_layer("CFG(2,2,2,<=3)", lambda: GC.cfg_cases(2, 2, 2, 0, 3), ["natural@plain", "1@plain", "2@pda", "3@pda", "natural@mixedval", "1@mixedval", "natural@mixedter"]),
                 self.cfg_layer("CFG(2,2,3,<=2)", lambda: GC.cfg_cases(2, 2, 3, 0, 2), ["natural@plain", "2@pda"])]
 
     N = {"quick": 3, "thorough": 4}
@@ -91,14 +92,16 @@ class C13(Prop):
         scheme = ctx.variant or "plain"
         n = ref["n"]
         if case[0] == "cfg":
-            g = ctx.call(O.build_cfg, case[1], scheme if scheme in ("pda", "mixedval") else "plain", "full")
+            g = ctx.call(O.build_cfg, case[1], scheme if scheme in ("pda", "mixedval", "mixedter") else "plain", "full")
             if not ctx.returns(g, "C13.build"):
                 return
             p = ctx.call(g.value.to_pda)
             if ctx.returns(p, "C13.to_pda"):
                 x = ctx.call(O.extract_pda, p.value)
                 if ctx.returns(x, "C13.to_pda.extract"):
-                    self._cmp(ctx, "C13.to_pda.lang", x.value.lang_empty_stack(n), ref["L"], result=x.value.describe())
+                    _, from_s = word_map(case[1], scheme if scheme == "mixedter" else "plain")
+                    self._cmp(ctx, "C13.to_pda.lang", {from_s(w) for w in x.value.lang_empty_stack(n)}, ref["L"],
+                              result=x.value.describe())
             return
         c = case[1]
         p = ctx.call(O.build_pda, c, scheme)
